@@ -73,6 +73,7 @@ private:
     static bool is_last_line(std::string_view line, std::uint16_t status_code);
 
     std::string buffer_;
+    bool skip_linefeed_ = false;
     socket_base_ptr socket_;
 };
 
